@@ -39,6 +39,7 @@ def cases(max_depth):
         "node": st.integers(0, 40),
         "children": st.booleans(), "keep_id": st.booleans(),
         "edit_copy": st.booleans(),
+        "unname": st.lists(st.integers(0, 40), min_size=0, max_size=2),
         "edits": st.lists(st.tuples(st.sampled_from(EDITS), st.integers(0, 30), st.integers(0, 5)).map(list),
                           min_size=0, max_size=8),
     })
@@ -187,6 +188,10 @@ def ids_of(root):
 def body(case):
     doc = build.build_doc(case["doc"])
     nodes = all_nodes(doc)
+    for i in case.get("unname", []):
+        o = nodes[i % len(nodes)]
+        if snap.kind(o) in ("sec", "prop"):
+            o.name = None            # unnamed objects carry their id as name
     node = nodes[case["node"] % len(nodes)]
     mode = case["mode"]
     k = snap.kind(node)
